@@ -302,6 +302,42 @@ fn record(args: &[String]) {
     out.finish();
 }
 
+/// Files written by OTHER producers (the specification's Producer: multi-revision, object streams, hybrid-reference
+/// sections, every filter form) are loaded and saved plainly: whatever the loader kept from the old file's
+/// structure (Prev, XRefStm, W, Index, object streams, cross-reference streams) must not leak into the new file.
+fn resave(args: &[String]) {
+    let files = read_ndjson(&arg(args, "--in").unwrap());
+    let mut out = NdjsonOut::create(&arg(args, "--out").unwrap());
+    for (i, f) in files.iter().enumerate() {
+        let bytes = json_to_bytes(&f["bytes"]);
+        out.put(&json!({"ev": "Reset", "case": i}));
+        out.put(&json!({"ev": "File", "case": i, "bytes": bytes_to_json(&bytes), "knobs": {"resave": true}}));
+        let mut d = match load(&bytes) {
+            Ok(d) => d,
+            Err(e) => {
+                out.put(&json!({"ev": "Load", "case": i, "cycle": 5, "res": e, "doc": doc_to_tla(&Document::new())}));
+                continue;
+            }
+        };
+        out.put(&json!({"ev": "Load", "case": i, "cycle": 5, "res": "ok", "doc": doc_to_tla(&d)}));
+        let fmt = if i % 2 == 0 { "table" } else { "stream" };
+        d.reference_table.cross_reference_type =
+            if fmt == "table" { XrefType::CrossReferenceTable } else { XrefType::CrossReferenceStream };
+        let before = doc_to_tla(&d);
+        match save(&mut d) {
+            Ok(b) => {
+                out.put(&json!({"ev": "Save", "case": i, "cycle": 5, "fmt": fmt, "doc": before, "res": "ok", "bytes": bytes_to_json(&b)}));
+                match load(&b) {
+                    Ok(d2) => out.put(&json!({"ev": "Load", "case": i, "cycle": 5, "res": "ok", "doc": doc_to_tla(&d2)})),
+                    Err(e) => out.put(&json!({"ev": "Load", "case": i, "cycle": 5, "res": e, "doc": doc_to_tla(&Document::new())})),
+                }
+            }
+            Err(e) => out.put(&json!({"ev": "Save", "case": i, "cycle": 5, "fmt": fmt, "doc": before, "res": e, "bytes": Value::Array(vec![])})),
+        }
+    }
+    out.finish();
+}
+
 /// Exhaustive byte-pair sweep (thorough tier): for every first byte a, one document whose 256
 /// objects carry the two-byte content [a, b] for every b, as a name, a literal string, a
 /// hexadecimal string, a dictionary key and a stream body.
@@ -358,6 +394,7 @@ fn main() {
     match args.get(1).map(String::as_str) {
         Some("record") => record(&args),
         Some("pairs") => pairs(&args),
+        Some("resave") => resave(&args),
         _ => {
             eprintln!("usage: c01 record --seed S --n N --out F");
             std::process::exit(2)
